@@ -47,3 +47,80 @@ Print Assumptions C02_removal_closes.
 Print Assumptions C02_no_reactions_identity.
 Print Assumptions C02_observer_requests_total.
 Print Assumptions C02_frame_with_reactions_total.
+
+(* ---- lifted to every reachable world (Proofs/TrackDefs, TrackFrameP, TrackOpP, TrackP): one (context type c,
+   entity e, action a) followed through ANY run of frames and operations.  Scenario-level hypotheses: a is an
+   action of context type c alone (events carry no context), and - "absent events-only blocking" - no binding
+   of a carries an events-only blocker.  [stored r c e a] is the ActionData the registry holds for a in the
+   instance e has for c; [ev_of e a] what e receives for a. ---- *)
+From BEI Require Import Model.Frame Proofs.TrackDefs Proofs.TrackFrameP Proofs.TrackOpP Proofs.TrackP.
+
+(* every step of every run from every world the plugin can be in is judged by frame_verdict / op_verdict:
+   a frame delivers to (e, a) exactly the transition table of (stored state, new state) built from the new
+   data, or nothing if e has no instance binding a; an operation delivers nothing unless it deactivates (c, e),
+   and then exactly the closing chunk *)
+Theorem C02_world_run : forall sc c e a steps w,
+  reg_inv sc w -> cfg_inv sc (w_reg w) -> owner sc c a -> ev_free sc c a -> run_verdict sc c e a w steps.
+Proof. exact track_run. Qed.
+Theorem C02_world_history : forall sc c e a steps,
+  owner sc c a -> ev_free sc c a -> run_verdict sc c e a world_init steps.
+Proof. exact track_history. Qed.
+
+(* "for an entity that holds a context continuously ... well-formed episodes ... nothing outside episodes" *)
+Theorem C02_world_held : forall sc c e a steps w d,
+  reg_inv sc w -> cfg_inv sc (w_reg w) -> owner sc c a -> ev_free sc c a ->
+  forallb (quiet_step c e) steps = true -> stored (w_reg w) c e a = Some d ->
+  exists w' d', steps_world sc w steps = Some w' /\ stored (w_reg w') c e a = Some d' /\
+    accepts (acc_of (d_state d)) (map kinds (main_chunks sc e a w steps)) = Some (acc_of (d_state d')) /\
+    op_events sc e a w steps = [].
+Proof. exact held_run_accepted. Qed.
+
+(* "removing the context component, despawning the entity or triggering a rebuild closes every open episode
+   ... with that terminal event (zero value, state None)" - in any reachable world, for any stored state; and
+   any other operation leaves the stream and the stored data of (c, e, a) alone *)
+Theorem C02_world_deactivation : forall sc c e a w o oo d,
+  reg_inv sc w -> cfg_inv sc (w_reg w) -> owner sc c a ->
+  apply_op sc w o = Some oo -> stored (w_reg w) c e a = Some d ->
+  let evs := ev_of e a (oo_events oo) in
+  if deactivates o c e then
+    close_chunk (acc_of (d_state d)) (kinds evs) = true /\ closing_ok a evs = true /\
+    (stored (w_reg (oo_world oo)) c e a = None \/ stored (w_reg (oo_world oo)) c e a = Some (data_new (aid_dim a)))
+  else evs = [] /\ stored (w_reg (oo_world oo)) c e a = Some d.
+Proof.
+  intros sc c e a w o oo d Hinv Hcfg Ho Ha Hs.
+  destruct (track_op sc c e a w o oo Hinv Hcfg Ho Ha) as [_ T]. cbv zeta in T. rewrite Hs in T. exact T.
+Qed.
+
+(* "nothing from the old instance is delivered afterwards": without an instance binding a, e receives nothing
+   for a from a frame's evaluation nor from an operation between frames *)
+Theorem C02_world_nothing_after : forall sc c e a w s,
+  reg_inv sc w -> cfg_inv sc (w_reg w) -> owner sc c a -> ev_free sc c a ->
+  stored (w_reg w) c e a = None ->
+  match s with
+  | SOp o => forall r, apply_op sc w o = Some r -> ev_of e a (oo_events r) = []
+  | SFrame f => forall fo, frame sc w f = Some fo ->
+      ev_of e a (fo_main fo) = [] /\
+      stored (w_reg (mid_world w f)) c e a = None /\ ops_verdict sc c e a (mid_world w f) (f_ops f)
+  end.
+Proof. exact absent_step. Qed.
+
+(* the hypotheses are satisfiable: a one-context scenario whose action 16 has an explicit and a plain blocker *)
+Example C02_world_nonvacuous :
+  let sc := mkScenario [0] [0] [((0, 0), mkSpec None [mkAction 16 [] [(1, c_script KExplicit [SFired]); (2, c_script (KBlocker false) [SFired])] []])] [] in
+  owner sc 0 16 /\ ev_free sc 0 16 /\
+  (exists w, steps_world sc world_init [SOp (OSpawn 0 [0])] = Some w /\ stored (w_reg w) 0 0 16 = Some (data_new D1)).
+Proof.
+  cbv zeta. split; [|split].
+  - intros c' e' Hc. unfold mk_inst, cfg_lookup. cbn [s_cfg find fst snd].
+    destruct (Z.eqb 0 c') eqn:E; [apply Z.eqb_eq in E; congruence|]. cbn. tauto.
+  - intros e' b Hb Hid. unfold mk_inst, cfg_lookup in Hb. cbn [s_cfg find fst snd] in Hb.
+    destruct (Z.eqb 0 0 && Z.eqb 0 e')%bool; cbn in Hb; [|tauto].
+    destruct Hb as [<-|[]]. split; cbn; [intros [H|[H|[]]]; discriminate | constructor].
+  - eexists. split; vm_compute; reflexivity.
+Qed.
+
+Print Assumptions C02_world_run.
+Print Assumptions C02_world_history.
+Print Assumptions C02_world_held.
+Print Assumptions C02_world_deactivation.
+Print Assumptions C02_world_nothing_after.
